@@ -428,7 +428,14 @@ class _Interp(object):
                         self.event(s, 'iop', cur, '%s %s= %s' % (t.id, type(s.op).__name__, src(s.value)))
                 if t.id in self.globals_decl:
                     self.event(s, 'global', STATE('%s.%s' % (self.m.name, t.id)), 'global %s rebound' % t.id)
-                env[t.id] = join(cur, v) if not cur.roots <= frozenset(['immut']) else (IMMUT if v.roots <= frozenset(['immut']) else join(cur, v))
+                if not cur.roots <= frozenset(['immut']):
+                    # either the same object updated in place (list/set: it now also holds v's elements) or a new object; never v itself
+                    env[t.id] = Own(cur.roots | frozenset(['fresh']), join(cur.element(), v.element()))
+                elif v.roots <= frozenset(['immut']):
+                    env[t.id] = IMMUT
+                else:
+                    # an immutable left operand: ``x += v`` rebinds x to the new object ``x + v`` (same value as the BinOp)
+                    env[t.id] = FRESH(join(cur.element(), v.element())) if isinstance(s.op, ast.Add) else IMMUT
             else:
                 base = self.expr(t.value, env)
                 self.event(s, 'store', base, src(t))
